@@ -6,6 +6,7 @@ import DtailModel.Lemmas.Wire
 import DtailModel.Lemmas.GrepCount
 import DtailModel.Lemmas.Fast
 import DtailModel.Lemmas.GlobID
+import DtailModel.Lemmas.GenGlobID
 namespace Dtail.C07
 open Dtail
 
@@ -172,5 +173,13 @@ example : makeGlobID (b!"logs/web1/app.log") (b!"logs/web?/app.log") = .ok (b!"w
   simp only [MatchesLiterals]
   refine ⟨fun _ => trivial, fun h => ?_, fun _ => trivial, trivial⟩
   exact absurd h (by decide)
+
+/-- **Tie G: `makeGlobID` as translated from internal/server/handlers/readcommand.go on this run computes the
+    model's identifier** for every path with at least as many components as the glob — so `C07_globid_value` and
+    `C07_globid_distinct` speak about the code as it is now. -/
+theorem C07_generated_globid_refines_model (ext : Go.Ext) (r : Gen.Handlers.readCommand) (path glob : Bytes)
+    (h : (splitOnByte SLASH glob).length ≤ (splitOnByte SLASH path).length) :
+    ∃ id, makeGlobID path glob = .ok id ∧ Gen.Handlers.readCommand.makeGlobID ext r path glob = (r, id) :=
+  GenGlobID.makeGlobID_refines ext r path glob h
 
 end Dtail.C07
